@@ -9,10 +9,14 @@ def op_at(x, k):
     return None
 
 
-def plan_signature(x):
-    """'<action>@<op>(<role of path>)' per deviation: the call-site identity of the injected fault."""
+def plan_signature(x, coarse=True):
+    """'<action>@<op>(<role of path>)' per deviation: the call-site identity of the injected fault.
+    coarse: the set of distinct deviations (errno dropped), so that one defect gets one signature."""
     parts = []
     for k, a in x.plan:
+        if k is None:
+            parts.append(":".join(a.split(":")[:2]))
+            continue
         o = op_at(x, k)
         kind = a.split(":")[0]
         arg = a.split(":")[1] if ":" in a else ""
@@ -31,7 +35,9 @@ def plan_signature(x):
                 role = "src" if "/" in p[len("$R0/src"):] else "srcdir"
             elif o.cls == "log":
                 role = "stdout"
-        parts.append("%s%s@%s(%s)" % (kind, (":" + arg) if arg and kind == "fail" else "", name, role))
+        parts.append("%s%s@%s(%s)" % (kind, (":" + arg) if arg and kind == "fail" and not coarse else "", name, role))
+    if coarse:
+        parts = sorted(set(parts))
     return "+".join(parts) if parts else "fault-free"
 
 
